@@ -197,6 +197,11 @@ class Shifts(Contract):
                                 yield dict(x=[s, n, f], mode=mode, dir=d, k=k, shape=[])
                                 if n <= 3 and k <= 2:
                                     yield dict(x=[s, n, f], mode=mode, dir=d, k=k, shape=[2])
+                                    # operands derived by the library: transposed 2-d, reversed view, element, shallow copy
+                                    for der, shape in (('T', [2, 2]), ('rev', [2]), ('item', []), ('copy', [2])):
+                                        if der == 'T' and (n != 2 or k > 1):
+                                            continue
+                                        yield dict(x=[s, n, f], mode=mode, dir=d, k=k, shape=shape, der=der)
 
     def inputs(self, cfg, D):
         s, n, f = cfg['x']
@@ -204,7 +209,10 @@ class Shifts(Contract):
 
     def run(self, cfg, P, inp):
         s, n, f = cfg['x']
-        x = make_fxp(P, s, n, f, codes=inp['c'], shape=tuple(cfg['shape']), cfg={'shifting': cfg['mode']}, vdtype=float)
+        if cfg.get('der'):
+            x = derived_fxp(P, cfg['der'], s, n, f, inp['c'], tuple(cfg['shape']), cfg={'shifting': cfg['mode']}, vdtype=float)
+        else:
+            x = make_fxp(P, s, n, f, codes=inp['c'], shape=tuple(cfg['shape']), cfg={'shifting': cfg['mode']}, vdtype=float)
         b = dict(x.__dict__); v0 = list(elems(x.val))
         z = (x << cfg['k']) if cfg['dir'] == 'l' else (x >> cfg['k'])
         o = obs_fxp(z)
